@@ -183,3 +183,57 @@ theorem C20_stratified_exceeds_water {v Dp d eps nu rhol rhos Cv : ℝ} (musf Cv
 /-! Non-vacuity: the hypotheses of `C20_Vsm_at_reported_max` / `C20_Vsm_nonneg` are met by a concrete sand. -/
 example : (0:ℝ) < 0.5 ∧ (0:ℝ) < 0.001 ∧ (0:ℝ) < 1.0 ∧ (1.0:ℝ) < 2.65 ∧ (0:ℝ) < 0.4 ∧ (0:ℝ) ≤ 0.012 ∧ (0:ℝ) ≤ 0.2 / 0.6 ∧ (0.2:ℝ) / 0.6 ≤ 1 := by
   norm_num
+
+/-- water pressure loss = water head loss · g · ρl (any arguments with a non-zero pipe diameter) -/
+theorem fluid_pressure_eq_head (v Dp eps nu rhol : ℝ) (hD : Dp ≠ 0) :
+    homogeneous.fluid_pressure_loss v Dp eps nu rhol = homogeneous.fluid_head_loss v Dp eps nu rhol * (Cst.gravity : ℝ) * rhol := by
+  have hg : (Cst.gravity : ℝ) ≠ 0 := by unfold Cst.gravity; norm_num
+  unfold homogeneous.fluid_pressure_loss homogeneous.fluid_head_loss
+  simp only
+  field_simp
+
+/-- the same clause at the entry points a caller uses: on E the excess of the Wilson stratified head loss over the water gradient (per unit
+length, not divided by Rsd·Cv) does not rise with the line speed, and neither does the excess of the pressure loss over the water pressure loss —
+a floor or cap applied in `stratified_head_loss` / `stratified_pressure_loss` rather than in `Erhg` breaks this theorem, not the one above -/
+theorem C20_stratified_excess_antitone_at_entry_points {v1 v2 Dp d eps nu rhol rhos Cv : ℝ} (musf Cvb : ℝ)
+    (h1 : InE v1 Dp d eps nu rhol rhos Cv) (h2 : InE v2 Dp d eps nu rhol rhos Cv) (h12 : v1 < v2) (hm : 0 < musf) :
+    wilson_stratified.stratified_head_loss v2 Dp d eps nu rhol rhos musf Cv Cvb - homogeneous.fluid_head_loss v2 Dp eps nu rhol
+      ≤ wilson_stratified.stratified_head_loss v1 Dp d eps nu rhol rhos musf Cv Cvb - homogeneous.fluid_head_loss v1 Dp eps nu rhol ∧
+    wilson_stratified.stratified_pressure_loss v2 Dp d eps nu rhol rhos musf Cv Cvb - homogeneous.fluid_pressure_loss v2 Dp eps nu rhol
+      ≤ wilson_stratified.stratified_pressure_loss v1 Dp d eps nu rhol rhos musf Cv Cvb - homogeneous.fluid_pressure_loss v1 Dp eps nu rhol := by
+  have ha := wilson_stratified_Erhg_antitone musf (0.6 : ℝ) h1 h2 h12 hm
+  have hb := wilson_stratified_Erhg_antitone musf Cvb h1 h2 h12 hm
+  have hk : 0 ≤ (rhos - rhol) / rhol * Cv :=
+    mul_nonneg (div_nonneg (sub_nonneg.mpr h1.rhos_gt.le) h1.rhol_pos.le) h1.Cv_pos.le
+  have hg : 0 ≤ (Cst.gravity : ℝ) * rhol := mul_nonneg (by unfold Cst.gravity; norm_num) h1.rhol_pos.le
+  constructor
+  · unfold wilson_stratified.stratified_head_loss
+    simp only
+    nlinarith [mul_le_mul_of_nonneg_left hb hk]
+  · rw [fluid_pressure_eq_head v1 Dp eps nu rhol h1.Dp_pos.ne', fluid_pressure_eq_head v2 Dp eps nu rhol h1.Dp_pos.ne']
+    unfold wilson_stratified.stratified_pressure_loss wilson_stratified.stratified_head_loss
+    simp only
+    have := mul_le_mul_of_nonneg_left (mul_le_mul_of_nonneg_left ha hk) hg
+    nlinarith [this]
+
+/-- the V50 model at its entry points: the excess of the head loss (and of the pressure loss) over the water gradient does not rise with the line
+speed, for every physical grading, non-negative concentration and non-zero pipe diameter -/
+theorem C20_V50_excess_antitone_at_entry_points (Dp d50 d85 eps nu rhol rhos musf Cv v1 v2 : ℝ) (hv1 : 0 < v1) (hv : v1 ≤ v2) (hm : 0 ≤ musf)
+    (hd : 0 < d50) (hn : 0 < nu) (hl : 0 < rhol) (hs : rhol < rhos) (hC : 0 ≤ Cv) (hD : Dp ≠ 0) :
+    wilson_v50.heterogeneous_head_loss v2 Dp d50 d85 eps nu rhol rhos Cv musf - homogeneous.fluid_head_loss v2 Dp eps nu rhol
+      ≤ wilson_v50.heterogeneous_head_loss v1 Dp d50 d85 eps nu rhol rhos Cv musf - homogeneous.fluid_head_loss v1 Dp eps nu rhol ∧
+    wilson_v50.heterogeneous_pressure_loss v2 Dp d50 d85 eps nu rhol rhos Cv musf - homogeneous.fluid_pressure_loss v2 Dp eps nu rhol
+      ≤ wilson_v50.heterogeneous_pressure_loss v1 Dp d50 d85 eps nu rhol rhos Cv musf - homogeneous.fluid_pressure_loss v1 Dp eps nu rhol := by
+  have ha := C20_V50_Erhg_antitone_on_E Dp d50 d85 eps nu rhol rhos musf v1 v2 hv1 hv hm hd hn hl hs
+  have hk : 0 ≤ (rhos - rhol) / rhol * Cv := mul_nonneg (div_nonneg (sub_nonneg.mpr hs.le) hl.le) hC
+  have hg : 0 ≤ (Cst.gravity : ℝ) * rhol := mul_nonneg (by unfold Cst.gravity; norm_num) hl.le
+  have hx := mul_le_mul_of_nonneg_left ha hk
+  constructor
+  · unfold wilson_v50.heterogeneous_head_loss
+    simp only
+    nlinarith [hx]
+  · rw [fluid_pressure_eq_head v1 Dp eps nu rhol hD, fluid_pressure_eq_head v2 Dp eps nu rhol hD]
+    unfold wilson_v50.heterogeneous_pressure_loss wilson_v50.heterogeneous_head_loss
+    simp only
+    have := mul_le_mul_of_nonneg_left hx hg
+    nlinarith [this]
